@@ -130,6 +130,17 @@ CLAIMED.update({
         ref='DESIGN.md 3/C04'),
 })
 
+CLAIMED.update({
+    'C11': dict(
+        text='start() of every servlet kind is proved all-or-nothing with ghost running counters over symbolic families of workers/members: on a normal exit every '
+             'worker/member is started and recorded, on an init failure the init error is raised, the failing worker joined, every earlier one sent the end marker and '
+             'joined / stopped, nothing marked started; stop() and Server.__exit__/__aexit__ are proved to route the end marker behind every accepted input (through the '
+             'onboarding buffer / the forwarding thread) before stopping workers, to join a worker only after the marker was sent, and to reset state for re-entry; the '
+             'onboarding thread is proved FIFO with the marker last; Worker.run is proved to perform the init handshake.',
+        technique='contract-based deductive verification: pyvc VCs with ghost running-set counters, symbolic families, event-order obligations (S3), z3',
+        ref='DESIGN.md 3/C11'),
+})
+
 PENDING = 'check under construction (see DESIGN.md section 3)'
 NA = {}
 
